@@ -275,6 +275,8 @@ func accessorField(call *ssa.Call) (FieldRef, bool) {
 	var found *FieldRef
 	nRet := 0
 	simple := true
+	chained := map[*ssa.Call]bool{}
+	var calls []*ssa.Call
 	for _, b := range sc.Blocks {
 		if b == sc.Recover {
 			continue
@@ -294,6 +296,20 @@ func accessorField(call *ssa.Call) (FieldRef, bool) {
 						found = &ff
 					}
 				}
+				// an accessor of an accessor: `return t.state.get()` where state is a member of the receiver
+				if ic, ok := res[0].(*ssa.Call); ok && len(ic.Call.Args) == 1 {
+					recv := ic.Call.Args[0]
+					if u, ok := recv.(*ssa.UnOp); ok && u.Op == token.MUL {
+						recv = u.X
+					}
+					if _, base, ok := FieldOf(recv); ok && base == ssa.Value(sc.Params[0]) {
+						if inner, ok := accessorField(ic); ok {
+							ff := inner
+							found = &ff
+							chained[ic] = true
+						}
+					}
+				}
 			case *ssa.Store:
 				// storing into the result cell is fine (defer-spilled return); any other store makes it more than an accessor
 				if _, isAlloc := x.Addr.(*ssa.Alloc); !isAlloc {
@@ -303,10 +319,15 @@ func accessorField(call *ssa.Call) (FieldRef, bool) {
 				simple = false
 			case *ssa.Call:
 				n := CallName(x)
-				if !strings.HasSuffix(n, "Lock") && !strings.HasSuffix(n, "RLock") {
-					simple = false
+				if !strings.HasSuffix(n, "Lock") && !strings.HasSuffix(n, "RLock") && !strings.HasSuffix(n, "Unlock") {
+					calls = append(calls, x)
 				}
 			}
+		}
+	}
+	for _, x := range calls {
+		if !chained[x] {
+			simple = false
 		}
 	}
 	if nRet != 1 || !simple || found == nil {
